@@ -9,6 +9,8 @@ Clauses
   forms     every spelling of "add this note" / "remove this note" (method, operator, list, Note
             object, other container, 'Name-octave' text) applied to every base container of a
             small universe: all equivalent forms must produce the model's content
+  shared    one Note object handed to two containers, then every action (and action pairs) on the first: the
+            second container and the caller's Note stay as they were
   voicing   ordered bare-name pairs / triples: each name at or above the previous top note and
             less than an octave above it, through the constructor, add_note and '+'
   chord / interval / numeral   the three shorthand constructors
@@ -47,7 +49,8 @@ ASSUMPTIONS = [
     "interval constructor: only string start notes and shorthands whose size is 0..11 semitones (for the others 'less than an "
     "octave' and the interval size disagree); downward intervals are read as start note in octave 4 plus the note that many "
     "semitones below, sorted",
-    "slash chords, polychords and unknown numerals are outside the statement and are not judged",
+    "slash chords and polychords: the container must voice the note list of chords.from_shorthand upward from its first name "
+    "(the bass / the lower chord's root) in octave 4, repeated names included (octave doublings); unknown numerals are not judged",
     "'names with octave' includes the 'Name-octave' text form accepted by Note (C10) for additions only",
     "removal forms are those the docstrings list: a name, a name with octave, a Note, a list of names and/or Notes; removal by "
     "Note removes the stored note equal to it, equality of notes being equality of pitch (C10), so an enharmonic Note removes it too",
@@ -677,14 +680,37 @@ def run_chord(case):
                     S.problem(site + " result", "a NoteContainer", type(r).__name__)
                     continue
                 nc = r
-            ok, ref = compare_voiced(S, site, nc, names, root)
+            # a slash chord starts on its bass note, a polychord on the lower chord's root: in both cases the
+            # first name of the chord's note list
+            start = names[0] if ("/" in suffix or "|" in suffix) else root
+            ok, ref = compare_voiced(S, site, nc, names, start)
             if ok:
                 check_content(nc, R.RefSet(stored(nc)), S, where=site + ": ")
     S.count("chords_checked")
+    if "/" in suffix or "|" in suffix:
+        S.count("slash_or_poly_chords_checked")
+        if len(set(names)) < len(names):
+            S.count("chords_naming_a_note_twice")
     if len(fold_bare(names).notes) >= 5:
         S.count("chords_with_5_or_more_notes")
     S.outcome((suffix, tuple(stored(nc))))
     S.sample({"chord": sh, "stored": stored(nc)})
+
+
+def slash_suffixes(root):
+    """Slash chords over a chord tone / a foreign bass and polychords sharing notes: the chord's note list then
+    names a note twice, and both belong in the container (the second an octave doubling further up)."""
+    up = lambda sh: P.apply_shorthand_up(root, sh)
+    out = []
+    for quality, basses in (("", ("3", "5", "2")), ("m", ("b3", "5")), ("7", ("3", "b7")), ("m7", ("b7", "b3")), ("M7", ("7",))):
+        for b in basses:
+            name = up(b)
+            if P.is_name(name) and len(name) <= 2:
+                out.append([root, "%s/%s" % (quality, name)])
+    for other in (up("6") + "m", up("5"), up("2") + "m7", root + "m"):
+        if len(other.rstrip("m7")) <= 2:
+            out.append([root, "|" + other])
+    return out
 
 
 def run_interval(case):
@@ -766,8 +792,61 @@ def run_numeral(case):
     S.sample({"numeral": case, "stored": stored(nc)})
 
 
+SHARE_FORMS = 4
+
+
+def run_shared(case):
+    """case = [name, octave, form, [actions...]] -- one Note object handed to two containers.
+
+    The library stores the caller's Note object itself (add_note(Note), add_notes([Note]), '+' Note), so the
+    same object may sit in several containers.  No add or remove operation on container a may change what
+    container b holds: b saw no operation, its model content is still the one note it was given."""
+    S = engine.S
+    name, octave, form, acts = case
+    st = State()
+    n = Note(name, octave)
+    if form == 0:
+        st.nc.add_note(n)
+    elif form == 1:
+        st.nc.add_notes([n])
+    elif form == 2:
+        st.nc.add_notes(n)
+    else:
+        r = st.nc + n
+    st.ref.add(name, octave)
+    b = NoteContainer()
+    b.add_note(n)
+    bref = R.RefSet([(name, octave)])
+    for i, act in enumerate(acts):
+        apply_action(st, act)
+        S.trans(1)
+        where = "Note %s-%d given to containers a and b, then on a: %r: " % (name, octave, acts[:i + 1])
+        check_content(st.nc, st.ref, S, where=where + "a: ")
+        if (n.name, n.octave) != (name, octave):
+            S.problem(where + "the caller's Note object", (name, octave), (n.name, n.octave))
+            break
+        if not check_content(b, bref, S, where=where + "b (untouched): "):
+            break
+    S.count("shared_note_histories")
+    S.outcome((tuple(stored(st.nc)), tuple(stored(b))))
+
+
+def gen_shared(shard):
+    name, octave, second = shard
+    spec = HistorySpec()
+    acts = spec.actions()
+    for form in range(SHARE_FORMS):
+        for a in acts:
+            if not second:
+                yield [name, octave, form, [a]]
+            elif form == 0:
+                for a2 in acts:
+                    yield [name, octave, form, [a, a2]]
+
+
 CLAUSES = {
     "history": run_history,
+    "shared": run_shared,
     "forms": run_forms,
     "voicing": run_voicing,
     "chord": run_chord,
@@ -801,6 +880,13 @@ def explore(ctx):
             ctx.bound("history_reduced_depth", 6)
             ctx.bound("history_reduced_actions", len(spec2.actions()))
             ctx.bfs("history", spec2, 6, label="history (reduced alphabet)")
+    # ---- one Note object in two containers
+    if ctx.want("shared"):
+        two = ctx.pick(["C", "D#", "B#"], NAMES8)
+        shards = [(n, o, False) for n in NAMES8 for o in OCTS] + [(n, o, True) for n in two for o in ctx.pick([4], OCTS)]
+        ctx.bound("shared_notes", len(NAMES8) * len(OCTS))
+        ctx.bound("shared_two_step_notes", len([x for x in shards if x[2]]))
+        ctx.product("shared", shards, gen_shared)
     # ---- forms
     if ctx.want("forms"):
         bs = bases(ctx.pick(2, 3))
@@ -820,7 +906,7 @@ def explore(ctx):
         roots = ctx.pick(P.canon_names(2), P.names(2))
         ctx.bound("chord_suffixes", len(suffixes))
         ctx.bound("chord_roots", len(roots))
-        ctx.product("chord", roots, lambda root: ([root, s] for s in suffixes))
+        ctx.product("chord", roots, lambda root: itertools.chain(([root, s] for s in suffixes), slash_suffixes(root)))
         ctx.guard("chord suffixes enumerated", len(suffixes), 47)
     if ctx.want("interval"):
         starts = ctx.pick(P.canon_names(2), P.names(2))
